@@ -12,7 +12,7 @@ def _extra(ctx, spec):
 
 PROP = dict(
     level='proof',
-    regen=['crctable', 'consts', 'integconsts', 'decapiconsts'],
+    regen=['crctable', 'consts', 'integconsts', 'decapiconsts', 'decapistdfac'],
     extra=_extra,
     theorems=['Fit.C07.C07_decode_from_clean', 'Fit.C07.C07_boundary_clean', 'Fit.C07.C07_history_indep_partial',
               'Fit.C07.C07_rejected_everywhere_partial', 'Fit.C07.C07_full_fails', 'Fit.C07.C07_witness_peek_past'],
